@@ -42,7 +42,7 @@ func checkC17(c *Ctx) {
 	}
 	for _, f := range sortedFuncs(writerSet) {
 		switch {
-		case isRoot(f, roots.InitGen):
+		case c.isGenesisImport(f):
 			r.Ok("C17.writers", fname(f), p.Pos(f.Pos()), "genesis import")
 		case isRoot(f, roots.Msg):
 			handler = f
